@@ -1,6 +1,808 @@
-//! C05 — harness module not built yet.
+//! C05 — privileged operations succeed only for the principal that owns them.
+//!
+//! The full (contract x ExecuteMsg variant x caller role x state) table against the REAL
+//! contracts: every factory, every minter created through its factory, the four
+//! collection codes (instantiated by, and owned by, a real minter contract's address),
+//! the seven whitelists, sg-splits with a real cw4-group (with and without admin).
+//! A row = one (contract, state, message) with otherwise valid arguments; the message is
+//! sent by every role, non-principals first, from the same state (the world is rebuilt
+//! after any call that succeeded).  Recorded per call: ok/err, the principal-relevant
+//! queries afterwards, and whether storage of every contract of the world and every
+//! tracked balance stayed the same.
+//!
+//! Monitors are written from the property sentence (`reserved`), know the principals
+//! from the history that built the state (never from the contract's answers) and share
+//! nothing with coq/model/Auth.v.
+#[path = "c05_worlds.rs"]
+mod worlds;
+
+use crate::chain;
+use crate::util::*;
+use crate::w_factory::*;
 use crate::Args;
-pub fn run(_a: &Args) {
-    eprintln!("C05: harness module not built yet");
-    std::process::exit(2);
+use cosmwasm_std::{coin, Addr};
+use serde::{Deserialize, Serialize};
+use serde_json::{json, Value};
+use std::collections::{BTreeMap, BTreeSet};
+use worlds::*;
+
+/// Who owns an operation, from the PROPERTY SENTENCE.  None = the sentence reserves it to
+/// nobody (public mint, purge, shuffle, operator grants on one's own tokens, paying to
+/// raise a whitelist's capacity, creating a minter).
+pub fn reserved(ck: CK, kind: &str) -> Option<P> {
+    match ck {
+        CK::Factory(_) => None,
+        CK::Minter(MinterKind::Base) => match kind {
+            // "base-minter mints only for the collection creator"; its one configuration
+            // message belongs to "the minter admin (the collection creator)"
+            "mint" | "update_start_trading_time" => Some(P::BaseMinterCreator),
+            _ => None,
+        },
+        CK::Minter(_) => match kind {
+            // "minter configuration, airdrops and burn-remaining only for the minter admin"
+            "set_whitelist" | "update_mint_price" | "update_start_time" | "update_end_time" | "update_start_trading_time"
+            | "update_per_address_limit" | "update_discount_price" | "remove_discount_price" => Some(P::MinterAdmin),
+            "mint_to" | "mint_for" => Some(P::MinterAdmin),
+            "burn_remaining" => Some(P::MinterAdmin),
+            _ => None, // mint, purge, shuffle, receive_nft
+        },
+        CK::Coll(_) => match kind {
+            // "token minting and trading-time updates on a collection only for its minter"
+            "mint" | "update_start_trading_time" => Some(P::CollMinter),
+            // handing the minter role over is the minter's; taking it, the proposed minter's
+            "update_ownership_transfer" | "update_ownership_renounce" => Some(P::CollMinter),
+            "update_ownership_accept" => Some(P::CollPendingMinter),
+            // "collection-info, freeze and token-metadata updates only for the collection creator"
+            "update_collection_info" | "update_collection_info_creator" | "freeze_collection_info" | "freeze_token_metadata"
+            | "update_token_metadata" | "enable_updatable" => Some(P::Creator),
+            // a token moves or burns only for who holds it (or was approved by the holder)
+            "transfer_nft" | "send_nft" | "burn" => Some(P::TokenSender),
+            "approve" | "revoke" => Some(P::TokenApprover),
+            _ => None, // approve_all / revoke_all concern the sender's own tokens; extension
+        },
+        CK::Wl(WlKind::Immutable) => Some(P::WlAdmin), // nobody holds it: the list is immutable
+        CK::Wl(_) => match kind {
+            // "admin-list changes only for whitelist admins (and never once frozen)"
+            "update_admins" | "freeze" => Some(P::WlAdminWhileMutable),
+            // capacity is not "membership, schedule or admin list" (DESIGN §7 C05)
+            "increase_member_limit" => None,
+            // "whitelist membership, schedule ... only for whitelist admins"
+            _ => Some(P::WlAdmin),
+        },
+        CK::Splits(_) => match kind {
+            "distribute" => Some(P::SplitsDistributor),
+            _ => Some(P::SplitsAdmin),
+        },
+        CK::Airdrop => Some(P::ClaimWallet),
+    }
+}
+
+/// the holders of a principal role for this message in this state, per the history;
+/// "freeze" means what it says: once collection info / token metadata is frozen, the
+/// corresponding update belongs to nobody
+fn holders(w: &World, p: P, kind: &str) -> Vec<String> {
+    if let CK::Coll(_) = w.ck {
+        if w.state == "info-frozen" && kind.starts_with("update_collection_info") {
+            return vec![];
+        }
+        if w.state == "metadata-frozen" && kind == "update_token_metadata" {
+            return vec![];
+        }
+    }
+    w.principals.get(&p).cloned().unwrap_or_default()
+}
+
+#[derive(Clone, Debug, Serialize, Deserialize)]
+pub struct RowId {
+    pub ck: CK,
+    pub state: String,
+    pub kind: String,
+    /// replay only: the role whose call violated
+    pub role: Option<String>,
+}
+
+struct CallRec {
+    role: String,
+    sender: String,
+    principal: bool,
+    ok: bool,
+    err: Option<String>,
+    post: String,
+}
+
+struct RowOut {
+    coq: String,
+    calls: Vec<CallRec>,
+    reserved: Option<P>,
+    exercised: bool,
+}
+
+struct Ctx<'a> {
+    out: &'a OutDir,
+    rep: Report,
+    cases: Vec<String>,
+    nviol: usize,
+    seen_keys: BTreeSet<String>,
+    nontrivial: BTreeSet<String>,
+    /// (contract, msg) -> exercised in some state
+    exercised: BTreeMap<(String, String), bool>,
+    verbose: bool,
+}
+
+impl<'a> Ctx<'a> {
+    fn violation(&mut self, key: String, what: String, row: &RowId) {
+        if !self.seen_keys.insert(key.clone()) {
+            return;
+        }
+        let body = serde_json::to_string_pretty(&json!({"row": row, "key": key, "what": what})).unwrap();
+        let path = self.out.write_replay(&format!("C05-{}.json", self.nviol), &body);
+        self.nviol += 1;
+        if self.verbose {
+            println!("VIOLATION {}: {}", key, what);
+        }
+        self.rep.violations.push(Violation { key, what, replay: path });
+    }
+}
+
+fn trivial_rejection(e: &str) -> bool {
+    let l = e.to_lowercase();
+    l.contains("parsing") || l.contains("parse") || l.contains("unknown variant") || l.contains("no funds") || l.contains("payment") || l.contains("sent funds")
+}
+
+/// run one row; `full` = every role, otherwise the principals and two outsiders
+fn run_row(cx: &mut Ctx, ck: CK, state: &str, kind: &str, full: bool) -> Result<Option<RowOut>, String> {
+    let mut w = build(ck, state)?;
+    let msgs = messages(&mut w);
+    let Some(msg) = msgs.into_iter().find(|m| m.kind == kind) else { return Ok(None) };
+    let res = reserved(ck, kind);
+    let hold: Vec<String> = res.map(|p| holders(&w, p, kind)).unwrap_or_default();
+    let init = observe(&mut w);
+    let env = w.env_coq();
+    // non-principals first, principals last; each principal starts from the pristine state
+    let mut order: Vec<(String, String, bool)> = vec![];
+    let mut outsiders = 0;
+    for (r, a) in w.roles.clone() {
+        let pr = res.is_some() && hold.contains(&a);
+        if !pr {
+            outsiders += 1;
+            if !full && outsiders > 2 {
+                continue;
+            }
+            order.push((r, a, false));
+        }
+    }
+    for (r, a) in w.roles.clone() {
+        if res.is_some() && hold.contains(&a) {
+            order.push((r, a, true));
+        }
+    }
+    let contract = ck.contract();
+    let mut calls = vec![];
+    let mut dirty = false;
+    for (role, sender, principal) in order {
+        if dirty {
+            let ids = w.ids.clone();
+            w = build(ck, state)?;
+            w.ids = ids;
+            dirty = false;
+        }
+        let pre = w.snapshot();
+        let funds = if msg.funds > 0 { vec![coin(msg.funds, NATIVE)] } else { vec![] };
+        let target = w.target.clone();
+        let r = exec_json(&mut w.app, &sender, &target, &msg.json, &funds);
+        let ok = r.is_ok();
+        let post = observe(&mut w);
+        let row = RowId { ck, state: state.to_string(), kind: kind.to_string(), role: Some(role.clone()) };
+        cx.rep.evaluations += 1;
+        let class = if res.is_none() { "open" } else if principal { "principal" } else { "outsider" };
+        cx.rep.bump(&format!("{}|{}|{}|{}", contract, kind, class, if ok { "ok" } else { "err" }));
+        if ok || !trivial_rejection(r.as_ref().err().map(|s| s.as_str()).unwrap_or("")) {
+            cx.nontrivial.insert(format!("{}|{}|{}|{}", ck.name(), state, kind, role));
+        }
+        // ---- monitors (property sentence; principals from the history)
+        if ok && res.is_some() && !principal {
+            cx.violation(
+                format!("C05:{}:{}:{}-succeeded", contract, kind, role),
+                format!(
+                    "{} in state `{}`: {} sent by {} ({}) succeeded, but the operation is reserved to {:?} = {:?}",
+                    ck.name(), state, msg.json, role, sender, res.unwrap(), hold
+                ),
+                &row,
+            );
+        }
+        if !ok && w.snapshot() != pre {
+            cx.violation(
+                format!("C05:{}:{}:rejected-call-changed-state", contract, kind),
+                format!("{} in state `{}`: {} by {} was rejected but storage or balances changed", ck.name(), state, msg.json, role),
+                &row,
+            );
+        }
+        if !ok && post != init {
+            cx.violation(
+                format!("C05:{}:{}:rejected-call-changed-queries", contract, kind),
+                format!("{} in state `{}`: {} by {} was rejected but the queries moved from {} to {}", ck.name(), state, msg.json, role, init, post),
+                &row,
+            );
+        }
+        if matches!(ck, CK::Factory(_) | CK::Minter(_)) && post != init {
+            // admin, Params and Status are all the queries of these kinds show: no execute may move them
+            cx.violation(
+                format!("C05:{}:{}:params-or-status-changed-by-execute", contract, kind),
+                format!("{} in state `{}`: after {} by {} the admin/Params/Status answers moved from {} to {}", ck.name(), state, msg.json, role, init, post),
+                &row,
+            );
+        }
+        if ok {
+            dirty = true;
+        }
+        calls.push(CallRec { role, sender, principal, ok, err: r.err(), post });
+    }
+    let exercised = calls.iter().any(|c| c.principal && c.ok);
+    let guards_ok = res.is_some() && exercised;
+    let call_terms: Vec<String> = calls.iter().map(|c| format!("mkCall {} {} {}", w.ids.id(&c.sender), coq_bool(c.ok), c.post)).collect();
+    let coq = format!("CRow {} {} {} {} {}", env, init, msg.coq, coq_bool(guards_ok), coq_list(&call_terms));
+    if res.is_some() {
+        let e = cx.exercised.entry((ck.name(), kind.to_string())).or_insert(false);
+        *e = *e || exercised;
+    }
+    Ok(Some(RowOut { coq, calls, reserved: res, exercised }))
+}
+
+/// sudo-shaped JSON through `execute`: must not deserialize, nothing moves
+fn run_sudo_shaped(cx: &mut Ctx, ck: CK) -> Result<(), String> {
+    let shapes = sudo_shaped(ck);
+    if shapes.is_empty() {
+        return Ok(());
+    }
+    let mut w = build(ck, "fresh")?;
+    let init = observe(&mut w);
+    let env = w.env_coq();
+    for (kind, js) in shapes {
+        let mut terms = vec![];
+        for (role, sender) in w.roles.clone() {
+            if !matches!(role.as_str(), "creator" | "governance" | "stranger") {
+                continue;
+            }
+            let pre = w.snapshot();
+            let target = w.target.clone();
+            let r = exec_json(&mut w.app, &sender, &target, &js, &[]);
+            let post = observe(&mut w);
+            cx.rep.evaluations += 1;
+            cx.rep.bump(&format!("{}|{}|malformed|{}", ck.contract(), kind, if r.is_ok() { "ok" } else { "err" }));
+            let row = RowId { ck, state: "fresh".into(), kind: kind.to_string(), role: Some(role.clone()) };
+            if r.is_ok() {
+                cx.violation(
+                    format!("C05:{}:{}-via-execute-succeeded", ck.contract(), kind),
+                    format!("{}: the governance message {} sent through execute by {} was accepted", ck.name(), js, role),
+                    &row,
+                );
+            }
+            if w.snapshot() != pre || post != init {
+                cx.violation(
+                    format!("C05:{}:{}-via-execute-changed-state", ck.contract(), kind),
+                    format!("{}: {} through execute by {} changed state ({} -> {})", ck.name(), js, role, init, post),
+                    &row,
+                );
+            }
+            terms.push(format!("mkCall {} {} {}", w.ids.id(&sender), coq_bool(r.is_ok()), post));
+            if r.is_ok() {
+                let ids = w.ids.clone();
+                w = build(ck, "fresh")?;
+                w.ids = ids;
+            }
+        }
+        cx.cases.push(format!("CRow {} {} XUndecodable false {}", env, init, coq_list(&terms)));
+    }
+    Ok(())
+}
+
+/// (ii) a minter or a collection can only be instantiated by a contract
+fn run_instantiate_probes(cx: &mut Ctx) -> Result<(), String> {
+    for mk in MinterKind::ALL {
+        let fk = mk.factory();
+        let mut w = build(CK::Minter(mk), "fresh")?;
+        let minter = Addr::unchecked(w.addr("minter"));
+        let factory = w.addr("factory");
+        let collection = w.addr("collection");
+        let code = w.app.wrap().query_wasm_contract_info(minter.to_string()).map_err(|e| e.to_string())?.code_id;
+        let ccode = w.app.wrap().query_wasm_contract_info(collection.clone()).map_err(|e| e.to_string())?.code_id;
+        let mut req = CreateReq::standard(fk, ccode, &(NATIVE.to_string(), 0));
+        if fk == FactoryKind::OpenEdition {
+            req.num_tokens = Some(100);
+        }
+        let msg = create_msg_json(&w.app, fk, "creator", &req)["create_minter"].clone();
+        // sender: a user account; a contract that is not a factory; the factory
+        for (who, sender, is_contract, answers) in
+            [("user", "creator".to_string(), false, false), ("non-factory-contract", collection.clone(), true, false), ("factory", factory.clone(), true, true)]
+        {
+            let pre = w.snapshot();
+            let r = instantiate_json(&mut w.app, code, &sender, &msg, "direct");
+            cx.rep.evaluations += 1;
+            cx.rep.bump(&format!("{}|instantiate|by-{}|{}", mk.name(), who, if r.is_ok() { "ok" } else { "err" }));
+            cx.nontrivial.insert(format!("{}|instantiate|{}", mk.name(), who));
+            let row = RowId { ck: CK::Minter(mk), state: "fresh".into(), kind: "instantiate".into(), role: Some(who.to_string()) };
+            if r.is_ok() && !(is_contract && answers) {
+                cx.violation(
+                    format!("C05:{}:instantiated-by-{}", mk.name(), who),
+                    format!("{}: code {} instantiated directly by {} ({})", mk.name(), code, who, sender),
+                    &row,
+                );
+            }
+            if r.is_err() && w.snapshot() != pre {
+                cx.violation(format!("C05:{}:instantiate:rejected-call-changed-state", mk.name()), "rejected instantiate changed state".into(), &row);
+            }
+            cx.cases.push(format!("CInst IMinter {} {} {}", coq_bool(is_contract), coq_bool(answers), coq_bool(r.is_ok())));
+        }
+    }
+    for k in CollKind::ALL {
+        let mut w = build(CK::Coll(k), "fresh")?;
+        let code = w.num("code");
+        let minter = w.addr("minter");
+        for (who, sender, is_contract) in [("user", "creator".to_string(), false), ("user-as-own-minter", "stranger".to_string(), false), ("contract", minter.clone(), true)] {
+            let pre = w.snapshot();
+            let msg = coll_instantiate_json(if is_contract { &minter } else { &sender }, "creator");
+            let r = instantiate_json(&mut w.app, code, &sender, &msg, "direct");
+            cx.rep.evaluations += 1;
+            cx.rep.bump(&format!("{}|instantiate|by-{}|{}", k.name(), who, if r.is_ok() { "ok" } else { "err" }));
+            cx.nontrivial.insert(format!("{}|instantiate|{}", k.name(), who));
+            let row = RowId { ck: CK::Coll(k), state: "fresh".into(), kind: "instantiate".into(), role: Some(who.to_string()) };
+            if r.is_ok() && !is_contract {
+                cx.violation(
+                    format!("C05:{}:instantiated-by-user", k.name()),
+                    format!("{}: code {} instantiated directly by the user account {}", k.name(), code, sender),
+                    &row,
+                );
+            }
+            if r.is_err() && w.snapshot() != pre {
+                cx.violation(format!("C05:{}:instantiate:rejected-call-changed-state", k.name()), "rejected instantiate changed state".into(), &row);
+            }
+            if is_contract && r.is_err() {
+                cx.rep.notes.push(format!("unexercised: {} instantiate by a contract failed: {}", k.name(), r.as_ref().err().unwrap()));
+            }
+            cx.cases.push(format!("CInst ICollection {} false {}", coq_bool(is_contract), coq_bool(r.is_ok())));
+        }
+    }
+    Ok(())
+}
+
+/// random interleavings of the messages whose outcome Auth.v decides completely
+fn run_history(cx: &mut Ctx, rng: &mut Rng, ck: CK, steps: usize) -> Result<(), String> {
+    let mut w = build(ck, "fresh")?;
+    let init = observe(&mut w);
+    let mut terms = vec![];
+    let mut cur = init.clone();
+    for _ in 0..steps {
+        if rng.chance(1, 6) {
+            let t = chain::now(&w.app) + rng.range(1, 40) * S;
+            chain::set_time(&mut w.app, t);
+        }
+        if let CK::Splits(_) = ck {
+            chain::mint_coins(&mut w.app, w.target.as_str(), 3_000_000, NATIVE);
+        }
+        let msgs: Vec<Msg> = messages(&mut w).into_iter().filter(|m| m.complete).collect();
+        if msgs.is_empty() {
+            return Ok(());
+        }
+        let m = &msgs[rng.below(msgs.len() as u64) as usize];
+        let roles = w.roles.clone();
+        // the principals of the fresh state come last in the role list: favour them
+        let pick = if rng.chance(3, 5) { roles.len() - 1 - rng.below(4.min(roles.len() as u64)) as usize } else { rng.below(roles.len() as u64) as usize };
+        let (role, sender) = roles[pick].clone();
+        let pre = w.snapshot();
+        let env = w.env_coq();
+        let funds = if m.funds > 0 { vec![coin(m.funds, NATIVE)] } else { vec![] };
+        let target = w.target.clone();
+        let r = exec_json(&mut w.app, &sender, &target, &m.json, &funds);
+        let post = observe(&mut w);
+        cx.rep.evaluations += 1;
+        cx.rep.bump(&format!("{}|history:{}|{}", ck.contract(), m.kind, if r.is_ok() { "ok" } else { "err" }));
+        if r.is_err() && (w.snapshot() != pre || post != cur) {
+            let row = RowId { ck, state: "history".into(), kind: m.kind.to_string(), role: Some(role.clone()) };
+            cx.violation(
+                format!("C05:{}:{}:rejected-call-changed-state", ck.contract(), m.kind),
+                format!("{} history: {} by {} was rejected but state changed", ck.name(), m.json, role),
+                &row,
+            );
+        }
+        terms.push(format!("mkH {} {} {} {} {}", env, w.ids.id(&sender), m.coq, coq_bool(r.is_ok()), post));
+        cur = post;
+    }
+    cx.cases.push(format!("CHist {} {}", init, coq_list(&terms)));
+    Ok(())
+}
+
+// ------------------------------------------------------------------ sg-eth-airdrop
+mod airdrop {
+    use super::*;
+    use ethers_core::k256::ecdsa::SigningKey;
+    use ethers_core::rand::thread_rng;
+    use ethers_signers::{LocalWallet, Signer, Wallet};
+
+    pub const PLAINTEXT: &str = "My Stargaze address is {wallet} and I want a Winter Pal.";
+
+    pub struct Drop {
+        pub w: World,
+        pub eth_addr: String,
+        pub wallet: Wallet<SigningKey>,
+    }
+
+    pub fn sign(wallet: &Wallet<SigningKey>, stargaze_wallet: &str) -> String {
+        let text = PLAINTEXT.replace("{wallet}", stargaze_wallet);
+        let sig = async_std::task::block_on(wallet.sign_message(text)).unwrap();
+        sig.to_string()
+    }
+
+    /// vending minter + plain whitelist whose admin list holds the airdrop contract + the
+    /// airdrop contract (which instantiates its whitelist-immutable of eligible eth addresses)
+    pub fn build() -> Result<Drop, String> {
+        let mw = setup_minter_with(MinterKind::Vending, |_, _| {})?;
+        let mut app = mw.app;
+        for a in ACCOUNTS {
+            chain::mint_coins(&mut app, a, 1_000_000_000_000, NATIVE);
+        }
+        let wallet = LocalWallet::new(&mut thread_rng());
+        let eth_addr = format!("{:?}", wallet.address());
+        let wl_code = app.store_code(chain::whitelist());
+        let imm_code = app.store_code(chain::whitelist_immutable());
+        let air_code = app.store_code(chain::eth_airdrop());
+        let now = chain::now(&app);
+        // contracts so far: factory 0, minter 1, collection 2; next: whitelist 3, airdrop 4, immutable 5
+        let airdrop_addr = "contract4";
+        let (msg, fee) = wl_instantiate_json(WlKind::Plain, now + 10 * S, now + 90 * S, 50_000_000, &["creator", airdrop_addr], true);
+        let wl = {
+            use cw_multi_test::Executor;
+            app.instantiate_contract(wl_code, Addr::unchecked("creator"), &msg, &[coin(fee, NATIVE)], "wl", None).map_err(|e| format!("{:#}", e))?
+        };
+        exec_json(&mut app, "creator", &mw.minter, &json!({"set_whitelist": {"whitelist": wl}}), &[]).map_err(|e| format!("set_whitelist: {}", e))?;
+        let imsg = json!({"admin": "creator", "claim_msg_plaintext": PLAINTEXT, "airdrop_amount": "30000000",
+            "addresses": [eth_addr], "whitelist_code_id": imm_code, "minter_address": mw.minter, "per_address_limit": 1});
+        let air = {
+            use cw_multi_test::Executor;
+            app.instantiate_contract(air_code, Addr::unchecked("creator"), &imsg, &[coin(100_000_000, NATIVE)], "airdrop", None)
+                .map_err(|e| format!("airdrop instantiate: {:#}", e))?
+        };
+        if air.as_str() != airdrop_addr {
+            return Err(format!("airdrop landed at {}", air));
+        }
+        chain::mint_coins(&mut app, air.as_str(), 1_000_000_000, NATIVE);
+        let w = World {
+            app,
+            ck: CK::Airdrop,
+            state: "fresh".into(),
+            target: air.clone(),
+            roles: vec![
+                ("stranger".to_string(), "stranger".to_string()),
+                ("creator".to_string(), "creator".to_string()),
+                ("minter-contract".to_string(), mw.minter.to_string()),
+                ("airdrop-itself".to_string(), air.to_string()),
+                ("claim-wallet".to_string(), "buyer1".to_string()),
+            ],
+            contracts: vec![air, wl, mw.minter, mw.factory, mw.collection, Addr::unchecked("contract5")],
+            accounts: ACCOUNTS.iter().map(|s| s.to_string()).collect(),
+            principals: BTreeMap::from([(P::ClaimWallet, vec!["buyer1".to_string()])]),
+            aux: BTreeMap::new(),
+            ids: fresh_ids(),
+        };
+        Ok(Drop { w, eth_addr, wallet })
+    }
+}
+
+fn run_airdrop(cx: &mut Ctx) -> Result<(), String> {
+    // the signature names buyer1: only buyer1 may claim with it
+    let mut d = airdrop::build()?;
+    let sig = airdrop::sign(&d.wallet, "buyer1");
+    let msg = json!({"claim_airdrop": {"eth_address": d.eth_addr, "eth_sig": sig}});
+    let signed = d.w.ids.id("buyer1");
+    let env = d.w.env_coq();
+    let mut terms = vec![];
+    let mut exercised = false;
+    for (role, sender) in d.w.roles.clone() {
+        let principal = sender == "buyer1";
+        let pre = d.w.snapshot();
+        let target = d.w.target.clone();
+        let r = exec_json(&mut d.w.app, &sender, &target, &msg, &[]);
+        cx.rep.evaluations += 1;
+        cx.rep.bump(&format!("sg-eth-airdrop|claim_airdrop|{}|{}", if principal { "principal" } else { "outsider" }, if r.is_ok() { "ok" } else { "err" }));
+        cx.nontrivial.insert(format!("sg-eth-airdrop|claim|{}", role));
+        let row = RowId { ck: CK::Airdrop, state: "fresh".into(), kind: "claim_airdrop".into(), role: Some(role.clone()) };
+        if r.is_ok() && !principal {
+            cx.violation(
+                format!("C05:sg-eth-airdrop:claim_airdrop:{}-succeeded", role),
+                format!("sg-eth-airdrop: a claim signed for buyer1 was accepted from {} ({})", role, sender),
+                &row,
+            );
+        }
+        if r.is_err() && d.w.snapshot() != pre {
+            cx.violation("C05:sg-eth-airdrop:claim_airdrop:rejected-call-changed-state".into(), "rejected claim changed state".into(), &row);
+        }
+        if principal && r.is_ok() {
+            exercised = true;
+        }
+        if principal && r.is_err() {
+            cx.rep.notes.push(format!("unexercised: sg-eth-airdrop claim by the signed wallet failed: {}", r.as_ref().err().unwrap()));
+        }
+        terms.push(format!("mkCall {} {} AAirdrop", d.w.ids.id(&sender), coq_bool(r.is_ok())));
+    }
+    cx.exercised.insert(("sg-eth-airdrop".into(), "claim_airdrop".into()), exercised);
+    cx.cases.push(format!("CRow {} AAirdrop (AClaim {}) {} {}", env, signed, coq_bool(exercised), coq_list(&terms)));
+    Ok(())
+}
+
+// ------------------------------------------------------------------ vending minters: full handler model
+/// Sender sweeps over the ten reserved handlers of each of the six vending minters in the
+/// sale world (payment address set), before and after the start; every step is printed
+/// as a SaleCorr `sstep`, so MinterVending.step — the model the Part 1 theorems are about
+/// — is compared with the real handler on exactly these calls.
+fn run_vending_handler_tie(cx: &mut Ctx, sale_cases: &mut Vec<String>) {
+    use crate::w_sale::{self as ws, Op, SaleCfg, SaleWorld};
+    let native = |a: u128| vec![(NATIVE.to_string(), a)];
+    for variant in 0..6usize {
+        let mut cfg = SaleCfg::basic(variant);
+        cfg.payment_address = true;
+        let mut w = match SaleWorld::new(cfg) {
+            Ok(w) => w,
+            Err(e) => {
+                cx.rep.notes.push(format!("unexercised: sale world for variant {}: {}", variant, e));
+                continue;
+            }
+        };
+        let vname = w.v.name;
+        let flex = vname.contains("flex");
+        let init = w.init_state_coq();
+        let init_bal = w.balances_coq();
+        let who: [(&str, &str); 5] =
+            [("stranger", ws::STRANGER), ("buyer", ws::BUYERS[0]), ("second-buyer", ws::BUYERS[1]), ("payment-address", ws::PAYADDR), ("creator", ws::CREATOR)];
+        let mk = |kind: &str, w: &str| -> Op {
+            let who = w.to_string();
+            match kind {
+                "update_mint_price" => Op::UpdateMintPrice { who, price: 90 },
+                "update_mint_price_lower" => Op::UpdateMintPrice { who, price: 85 },
+                "update_start_time" => Op::UpdateStartTime { who, secs: 3100, nanos: 0 },
+                "update_start_trading_time" => Op::UpdateStartTradingTime { who, t: Some((3300, 0)) },
+                "update_start_trading_time_none" => Op::UpdateStartTradingTime { who, t: None },
+                "update_per_address_limit" => Op::UpdatePerAddressLimit { who, limit: 2 },
+                "set_whitelist" => Op::SetWhitelist { who, kind: if flex { 2 } else { 0 }, start_in: 500, end_in: 900, price: 60, ibc: false },
+                "mint_to" => Op::MintTo { who, recipient: ws::BUYERS[1].into(), funds: vec![] },
+                "mint_for" => Op::MintFor { who, token_id: 3, recipient: ws::BUYERS[1].into(), funds: vec![] },
+                "mint_for_later" => Op::MintFor { who, token_id: 5, recipient: ws::BUYERS[1].into(), funds: vec![] },
+                "update_discount_price" => Op::UpdateDiscountPrice { who, price: 80 },
+                "remove_discount_price" => Op::RemoveDiscountPrice { who },
+                "burn_remaining" => Op::BurnRemaining { who },
+                _ => unreachable!(),
+            }
+        };
+        let phases: [(u64, &[&str]); 3] = [
+            (100, &["update_mint_price", "update_start_time", "update_start_trading_time", "update_per_address_limit", "set_whitelist", "mint_to", "mint_for"]),
+            (3200, &["update_discount_price", "update_mint_price_lower", "update_start_trading_time_none", "update_per_address_limit", "mint_to", "mint_for_later", "set_whitelist"]),
+            (3200 + 4000, &["remove_discount_price", "burn_remaining"]),
+        ];
+        let mut steps = vec![];
+        for (at, kinds) in phases {
+            w.run(&Op::At { secs: at, nanos: 0 });
+            let _ = native(0);
+            for kind in kinds {
+                for (role, addr) in who {
+                    let op = mk(kind, addr);
+                    let out = w.run(&op);
+                    if !out.is_minter_step {
+                        continue;
+                    }
+                    cx.rep.evaluations += 1;
+                    let principal = addr == ws::CREATOR;
+                    cx.rep.bump(&format!("{}|handler-model:{}|{}|{}", vname, kind, if principal { "principal" } else { "outsider" }, if out.ok { "ok" } else { "err" }));
+                    cx.nontrivial.insert(format!("{}|handler-model|{}|{}|{}", vname, at, kind, role));
+                    let base_kind = kind.trim_end_matches("_lower").trim_end_matches("_later").trim_end_matches("_none");
+                    let row = RowId { ck: CK::Minter(MinterKind::ALL[variant + 1]), state: if at == 100 { "fresh".into() } else { "started".into() }, kind: base_kind.to_string(), role: Some(role.to_string()) };
+                    if out.ok && !principal {
+                        cx.violation(
+                            format!("C05:{}:{}:{}-succeeded", vname, base_kind, role),
+                            format!("{} (sale world, t0+{}s): {:?} succeeded, but the operation is reserved to the minter admin (creator)", vname, at, op),
+                            &row,
+                        );
+                    }
+                    if let Some(e) = &out.err {
+                        if e.starts_with("STATE-CHANGED-ON-FAILURE") {
+                            cx.violation(format!("C05:{}:{}:rejected-call-changed-state", vname, base_kind), format!("{}: {:?}: {}", vname, op, e), &row);
+                        }
+                    }
+                    if principal {
+                        let e = cx.exercised.entry((format!("{} (handler model)", vname), base_kind.to_string())).or_insert(false);
+                        *e = *e || out.ok;
+                    }
+                    if let Some(s) = out.coq {
+                        steps.push(s);
+                    }
+                }
+            }
+        }
+        sale_cases.push(ws::case_coq(&mut w, &init, &init_bal, &steps));
+    }
+}
+
+/// which states get the full role sweep for a message in the quick tier; elsewhere the
+/// principals and two outsiders are tried
+fn full_sweep(ck: CK, state: &str, kind: &str, thorough: bool) -> bool {
+    if thorough {
+        return true;
+    }
+    match ck {
+        CK::Minter(_) => match state {
+            "fresh" => !matches!(kind, "update_discount_price" | "mint" | "burn_remaining_oe"),
+            "started" => matches!(kind, "update_discount_price" | "remove_discount_price" | "mint" | "mint_to" | "mint_for" | "update_mint_price"),
+            "ended" => kind == "burn_remaining",
+            _ => matches!(kind, "mint" | "update_start_trading_time" | "mint_to"),
+        },
+        CK::Coll(_) => match state {
+            "fresh" => true,
+            "creator-handover" => matches!(kind, "update_collection_info" | "freeze_collection_info" | "freeze_token_metadata" | "update_token_metadata"),
+            "info-frozen" => kind.starts_with("update_collection_info"),
+            "ownership-pending" | "ownership-pending-expired" => kind.starts_with("update_ownership") || kind == "mint",
+            "ownership-pending-before-deadline" | "ownership-pending-height" | "ownership-pending-height-expired" => kind == "update_ownership_accept",
+            "ownership-accepted" | "ownership-renounced" => kind.starts_with("update_ownership") || kind == "mint" || kind == "update_start_trading_time",
+            "metadata-frozen" => kind == "update_token_metadata" || kind == "freeze_token_metadata",
+            "updatable-disabled" => kind == "enable_updatable" || kind == "update_token_metadata",
+            _ => false,
+        },
+        CK::Wl(_) => match state {
+            "fresh" | "admins-updated" => true,
+            "frozen" | "instantiated-immutable" => matches!(kind, "update_admins" | "freeze" | "add_members"),
+            _ => matches!(kind, "update_end_time" | "add_members"),
+        },
+        _ => true,
+    }
+}
+
+fn all_rows(thorough: bool) -> Vec<(CK, String, String)> {
+    let mut rows = vec![];
+    for ck in CK::all() {
+        if ck == CK::Airdrop {
+            continue;
+        }
+        for st in states(ck, thorough) {
+            // message kinds do not depend on the state
+            let kinds: Vec<&'static str> = match build(ck, "fresh") {
+                Ok(mut w) => messages(&mut w).into_iter().map(|m| m.kind).collect(),
+                Err(e) => panic!("C05: world {} does not build: {}", ck.name(), e),
+            };
+            for k in kinds {
+                rows.push((ck, st.to_string(), k.to_string()));
+            }
+        }
+    }
+    rows
+}
+
+pub fn run(a: &Args) {
+    let out = OutDir::new(&a.out);
+    let mut cx = Ctx {
+        out: &out,
+        rep: Report { property: "C05".into(), tier: a.tier.clone(), seed: a.seed, ..Default::default() },
+        cases: vec![],
+        nviol: 0,
+        seen_keys: BTreeSet::new(),
+        nontrivial: BTreeSet::new(),
+        exercised: BTreeMap::new(),
+        verbose: a.replay.is_some(),
+    };
+    let mut rng = Rng::new(a.seed);
+
+    if let Some(p) = &a.replay {
+        let v: Value = serde_json::from_str(&std::fs::read_to_string(p).expect("replay file")).expect("replay json");
+        let row: RowId = serde_json::from_value(v["row"].clone()).expect("replay row");
+        println!("replaying {} / state {} / message {}", row.ck.name(), row.state, row.kind);
+        let r = match (row.ck, row.kind.as_str()) {
+            (CK::Airdrop, _) => run_airdrop(&mut cx).map(|_| None),
+            (_, "instantiate") => run_instantiate_probes(&mut cx).map(|_| None),
+            (ck, k) if k.starts_with("sudo_") => run_sudo_shaped(&mut cx, ck).map(|_| None),
+            (ck, _) if row.state == "history" => run_history(&mut cx, &mut rng, ck, 60).map(|_| None),
+            (ck, k) => run_row(&mut cx, ck, &row.state, k, true),
+        };
+        match r {
+            Ok(Some(o)) => {
+                for c in &o.calls {
+                    println!(
+                        "  {:<24} {:<12} {} -> {}{}",
+                        c.role,
+                        c.sender,
+                        if c.principal { "(principal)" } else { "" },
+                        if c.ok { "ok".to_string() } else { "err".to_string() },
+                        c.err.as_ref().map(|e| format!("  [{}]", e.replace(char::from(10), " ").chars().rev().take(110).collect::<String>().chars().rev().collect::<String>())).unwrap_or_default()
+                    );
+                }
+                cx.cases.push(o.coq);
+            }
+            Ok(None) => {}
+            Err(e) => println!("replay could not run: {}", e),
+        }
+        cx.rep.distinct_nontrivial = cx.nontrivial.len() as u64;
+        cx.rep.rule = "replay".into();
+        let Ctx { mut rep, cases, .. } = cx;
+        out.write_cases("C05", "From LP Require Import Auth C05Corr.", "c05_case", "c05_check", &cases, 1, &mut rep);
+        out.finish(&rep);
+        println!("C05 replay: {} calls, {} violations", rep.evaluations, rep.violations.len());
+        return;
+    }
+
+    let thorough = a.thorough();
+    // ---- A. the table
+    let rows = all_rows(thorough);
+    let mut nrows = 0;
+    let mut handover_obs: BTreeSet<&'static str> = BTreeSet::new();
+    for (ck, st, kind) in &rows {
+        let full = full_sweep(*ck, st, kind, thorough);
+        match run_row(&mut cx, *ck, st, kind, full) {
+            Ok(Some(o)) => {
+                nrows += 1;
+                if cx.rep.samples.len() < 3 && nrows % 97 == 5 {
+                    cx.rep.samples.push(json!({"contract": ck.name(), "state": st, "message": kind, "reserved_to": format!("{:?}", o.reserved),
+                        "calls": o.calls.iter().map(|c| json!({"role": c.role, "sender": c.sender, "principal": c.principal, "ok": c.ok})).collect::<Vec<_>>()}));
+                }
+                if let (CK::Minter(mk), "creator-handover", Some(P::MinterAdmin)) = (*ck, st.as_str(), o.reserved) {
+                    let ok_of = |role: &str| o.calls.iter().find(|c| c.role == role).map(|c| c.ok);
+                    if o.exercised && ok_of("creator") == Some(true) && ok_of("new-creator") == Some(false) {
+                        handover_obs.insert(mk.name());
+                    }
+                }
+                cx.cases.push(o.coq);
+            }
+            Ok(None) => {}
+            Err(e) => cx.rep.notes.push(format!("row {} / {} / {} could not be built: {}", ck.name(), st, kind, e)),
+        }
+    }
+    // ---- (i) governance messages through execute
+    for ck in CK::all() {
+        if let Err(e) = run_sudo_shaped(&mut cx, ck) {
+            cx.rep.notes.push(format!("sudo-shaped probes on {}: {}", ck.name(), e));
+        }
+    }
+    // ---- (ii) instantiation
+    if let Err(e) = run_instantiate_probes(&mut cx) {
+        cx.rep.notes.push(format!("instantiate probes: {}", e));
+    }
+    // ---- sg-eth-airdrop
+    if let Err(e) = run_airdrop(&mut cx) {
+        cx.rep.notes.push(format!("unexercised: sg-eth-airdrop world: {}", e));
+    }
+    // ---- random interleavings of hand-over operations
+    let (nh, len) = if thorough { (40, 60) } else { (3, 30) };
+    for ck in CK::all() {
+        if matches!(ck, CK::Coll(_) | CK::Wl(_) | CK::Splits(_)) {
+            for _ in 0..nh {
+                if let Err(e) = run_history(&mut cx, &mut rng, ck, len) {
+                    cx.rep.notes.push(format!("history on {}: {}", ck.name(), e));
+                }
+            }
+        }
+    }
+    // ---- Part 1 tie: the reserved handlers of the vending minters against MinterVending.step
+    let mut sale_cases = vec![];
+    run_vending_handler_tie(&mut cx, &mut sale_cases);
+    // ---- rows whose principal never succeeded teach nothing: say so
+    let un: Vec<String> = cx.exercised.iter().filter(|(_, v)| !**v).map(|((c, m), _)| format!("{}:{}", c, m)).collect();
+    cx.rep.notes.push(format!(
+        "{} table rows, {} reserved (contract, message) pairs, {} of them never exercised by a principal in any state: {:?}",
+        nrows,
+        cx.exercised.len(),
+        un.len(),
+        un
+    ));
+    cx.rep.notes.push(
+        "open by design, not reported (DESIGN §7 C05): IncreaseMemberLimit on the four list whitelists has no admin check (anyone may pay to raise capacity); \
+         Mint, Purge and Shuffle on minters; token-merge ReceiveNft (gated on the sending collection, not on a role); ApproveAll/RevokeAll (the sender's own tokens); \
+         CreateMinter on factories; sg721 Extension panics (todo!/unreachable!) for every sender"
+            .into(),
+    );
+    cx.rep.notes.push(format!(
+        "observation (not a violation: the sentence reserves these to the minter admin): after the collection's creator is handed over with \
+         UpdateCollectionInfo{{creator}}, the admin of a vending / open-edition / token-merge minter stays the account it was created with - the old \
+         creator's reserved calls still succeed and the new creator's are refused (seen on {:?}); only the base minter follows the collection's current creator",
+        handover_obs
+    ));
+    cx.rep.distinct_nontrivial = cx.nontrivial.len() as u64;
+    cx.rep.rule = "distinct (contract, state, message, role) calls that succeeded or were rejected for a reason other than parsing / attached funds".into();
+    let Ctx { mut rep, cases, .. } = cx;
+    out.write_cases("C05", "From LP Require Import Auth C05Corr.", "c05_case", "c05_check", &cases, 5, &mut rep);
+    out.write_cases("C05v", "From LP Require Import Num Pay Sg1 Bank MinterVending SaleCorr.", "scase", "sale_check", &sale_cases, 2, &mut rep);
+    out.finish(&rep);
+    println!("C05: {} rows, {} cases, {} calls, {} violations", nrows, cases.len(), rep.evaluations, rep.violations.len());
 }
